@@ -302,6 +302,7 @@ func TestC05(t *testing.T) {
 	sem <- struct{}{}
 	go doSquare(len(cases), vkit.EmptySquare(), true, rng.Split("empty"))
 	wg.Wait()
+	c05interrupted(run, rng.Split("interrupted"), base)
 	c05concurrent(run, rng.Split("concurrent"), base)
 	run.Require("accessor_calls", 5000)
 	run.Require("getter_calls", 100)
